@@ -21,7 +21,7 @@ EXPLANATION = (
     "<name attrs>body</name> with body in the grammar, void elements, attribute values free of the three characters - in "
     "which p, h1-h6, pre, a, em, strong, code - and del, mark, ins, sup, sub of the modelled inline plugins - contain phrasing "
     "elements only (C06_whole_document_is_well_nested; core, and core plus strikethrough, mark, insert, superscript, subscript, "
-    "url), and every string of that grammar returns the context reader to character data. NOT proved: the other plugin and "
+    "url), and every string of that grammar returns the context reader to character data; and the output contains the image of every text, code-span, inline-HTML, code-block and HTML-block leaf of the AST - escape(raw), for HTML blocks escape(raw.strip()) - one after the other in document order (C06_whole_document_shows_every_leaf_in_order, from a reflective analysis of the regenerated templates that is sound for every shape with escape on; text under an image goes into the alt attribute and is the oracle's). NOT proved: the other plugin and "
     "directive tokens at tree level, the Markdown and RST renderers, and two-step = one-step; these clauses are decided by the oracle: strict HTML "
     "nesting check, ordered search of every escaped leaf, per-line search of leaves in Markdown/RST output, and comparison "
     "of rendering a renderer-less token list with direct conversion.")
